@@ -8,9 +8,9 @@ emitted as a Lean definition `Src.<Owner>.<name>` returning `Option τ` (`none` 
 unsigned subtraction below zero, exhausted loop fuel); the others are listed with the reason in the status file and as
 comments in the Lean file.  Conventions (DESIGN section 15):
 
- * integers are `Nat`; `& | ^ >>` are exact; `<<` and narrowing `as` are reduced modulo the width; `-` on unsigned
-   integers is checked (`Src.sub`, `none` below zero); `+` and `*` are unbounded (the model's no-overflow theorems and the
-   overflow-checking build of the correspondence cover the difference);
+ * integers are `Nat`; `& | ^` are exact; narrowing `as` is reduced modulo the width; `+ - * / %` on unsigned integers
+   are checked (`Src.add w`, `Src.sub`, `Src.mul w` …: `none` = the overflow panic of a build with overflow checks);
+   shifts by a constant below the width are exact (`<<` reduced modulo the width), other shifts are checked;
  * arrays, slices and the new-type hand containers are `List`s; enum values are their discriminants;
  * `&mut self` methods return the new receiver (paired with the result when there is one);
  * `while` becomes `Src.whileFuel fuel …` (every function that loops, or calls one that does, takes a `fuel` argument);
@@ -226,6 +226,22 @@ def parse_int(text):
     return int(t)
 
 
+def char_code(lit):
+    body = lit[1:-1]
+    if body.startswith("\\u{"):
+        return int(body[3:-1].replace("_", ""), 16)
+    if body.startswith("\\x"):
+        return int(body[2:], 16)
+    if body.startswith("\\"):
+        m = {"n": 10, "r": 13, "t": 9, "0": 0, "\\": 92, "'": 39, '"': 34}
+        if body[1] in m:
+            return m[body[1]]
+        raise Unsupported("escape " + body)
+    if len(body) != 1:
+        raise Unsupported("character literal " + lit)
+    return ord(body)
+
+
 def lname(n):
     if n == "self":
         return "self_"
@@ -368,6 +384,14 @@ class Translator:
             return "(" + " × ".join(self.lty(x) for x in t[1]) + ")"
         if k == "opt":
             return "(Option %s)" % self.lty(t[1])
+        if k == "res":
+            return "(Except Nat %s)" % self.lty(t[1])
+        if k == "char":
+            return "Nat"
+        if k == "str":
+            return "(List Nat)"
+        if k == "iter" and len(t) > 1:
+            return "(List %s)" % self.lty(t[1])
         raise Unsupported("type %s" % (t,))
 
     def lval(self, v):
@@ -382,9 +406,14 @@ class Translator:
     # ------------------------------------------------------------------ function lookup
     def find_fn(self, owner, name):
         """returns (key, record) of the function `name` reachable on `owner` (own impls, then trait defaults)"""
+        m = re.match(r"^(.*)__(\d+)$", name)
+        if m and (owner, m.group(1)) in self.c.fns:
+            recs = self.c.fns[(owner, m.group(1))]
+            return (owner, name), recs[int(m.group(2)) - 1]
         if (owner, name) in self.c.fns:
             recs = self.c.fns[(owner, name)]
-            return (owner, name), recs[0]
+            inherent = [r for r in recs if r.get("trait") is None]
+            return (owner, name), (inherent[0] if inherent else recs[0])
         for tr in self.c.impl_traits.get(owner, []):
             d = self.c.traits.get(tr, {}).get(name)
             if d is not None and d["fn"][5] is not None:
@@ -491,27 +520,29 @@ class FnTr:
                 return "some self_" if rty == UNIT else "some (%s, self_)" % atom
             return "some %s" % atom
         ctx = {"ret": lambda a: fin(a), "brk": None, "cont": None}
-        term = self.block(body, env, ctx, lambda a, t, env2: fin(a))
+        term = self.block(body, env, ctx, lambda a, t, env2: fin(a), expect=rty)
         return {"lean_body": term, "params": lparams, "ret": full, "ret_lty": self.full_lty, "fuel": self.fuel, "mutself": self.mutself,
                 "plain_ret": rty}
 
     # ------------------------------------------------------------------ blocks / statements
-    def block(self, b, env, ctx, k):
+    def block(self, b, env, ctx, k, expect=None):
         """b = ('block', stmts, tail); k(atom, type, env) builds the continuation term"""
         _, stmts, tail = b
-        return self.stmts(list(stmts), tail, dict(env), ctx, k)
+        env = dict(env)
+        env["#depth"] = env.get("#depth", 0) + 1
+        return self.stmts(list(stmts), tail, env, ctx, k, expect)
 
-    def stmts(self, stmts, tail, env, ctx, k):
+    def stmts(self, stmts, tail, env, ctx, k, expect=None):
         if not stmts:
             if tail is None:
                 return k("()", UNIT, env)
             if (tail[0] == "if" and tail[3] is None) or tail[0] in ("while", "for", "loop", "assign", "break", "continue"):
                 return self.stmt_expr(tail, env, ctx, lambda env2: k("()", UNIT, env2))
-            return self.ev(tail, env, ctx, lambda a, t: k(a, t, env), tailpos=True)
+            return self.ev(tail, env, ctx, lambda a, t: k(a, t, env), expect=expect, tailpos=True)
         s, rest = stmts[0], stmts[1:]
 
         def cont(env2):
-            return self.stmts(rest, tail, env2, ctx, k)
+            return self.stmts(rest, tail, env2, ctx, k, expect)
         if s[0] == "let":
             _, pat, ty, init = s
             if init is None:
@@ -536,6 +567,12 @@ class FnTr:
 
     def bindpat(self, pat, t, env):
         if pat[0] == "pbind":
+            d = env.get("#depth", 0)
+            if pat[1] in env and env.get("^" + pat[1], 0) < d:
+                # a nested block re-declares a name of an enclosing scope: with duplicated continuations the inner binding
+                # would leak into the code after the block
+                raise Unsupported("`%s` shadows a variable of an enclosing block" % pat[1])
+            env["^" + pat[1]] = d
             env[pat[1]] = t
             env.pop("?" + pat[1], None)
             return lname(pat[1])
@@ -601,6 +638,7 @@ class FnTr:
         env = dict(outer)
         for kx in list(outer):
             if kx.startswith("?") and kx[1:] in inner:
+                env["^" + kx[1:]] = outer.get("#depth", 0)
                 env.pop(kx)
                 env[kx[1:]] = inner[kx[1:]]
         return env
@@ -737,6 +775,8 @@ class FnTr:
         return sorted(out)
 
     def is_mut_method(self, t, m):
+        if t[0] == "iter":
+            return m == "next"
         owner = self.c.owner_of_type(t) if t[0] != "arr" else None
         if t[0] == "arr" or owner is None:
             return m in ("sort_unstable", "reverse", "sort", "swap")
@@ -806,6 +846,7 @@ class FnTr:
             if xt[0] != "arr":
                 raise Unsupported("for over %s" % (xt,))
             env2 = dict(env)
+            env2["#depth"] = env2.get("#depth", 0) + 1
             lp = self.bindpat(pat, xt[1], env2)
             bt = self.block(body, env2, lctx, lambda _a, _t, env3: lctx["cont"](env3))
             rho = self.full_lty if has_ret else "Empty"
@@ -840,6 +881,8 @@ class FnTr:
                 return k(a, ("arr", self.elem_type(t), self.arr_len(t)))
             if t[0] == "arr":
                 return k(a, t)
+            if t[0] == "iter" and len(t) > 1:
+                return k(a, ("arr", t[1], None))
             raise Unsupported("iteration over %s" % (t,))
         return self.ev(it, env, ctx, after)
 
@@ -858,8 +901,10 @@ class FnTr:
             return k(str(v), t)
         if kind == "bool":
             return k("true" if e[1] else "false", BOOL)
-        if kind in ("char", "str"):
-            raise Unsupported("character / string literal")
+        if kind == "char":
+            return k(str(char_code(e[1])), ("char",))
+        if kind == "str":
+            raise Unsupported("string literal")
         if kind == "path":
             return self.path(e, env, k, expect)
         if kind == "addr" or kind == "deref":
@@ -964,7 +1009,17 @@ class FnTr:
         if kind == "macro":
             raise Unsupported("macro %s!" % "::".join(str(x) for x in e[1]))
         if kind == "try":
-            raise Unsupported("? operator")
+            if self.rty[0] != "opt":
+                raise Unsupported("? in a function that does not return Option")
+            if ctx.get("ret") is None:
+                raise Unsupported("? inside a closure")
+
+            def after_try(a, t):
+                if t[0] != "opt":
+                    raise Unsupported("? on %s" % (t,))
+                v = self.fresh("v")
+                return "match %s with\n| none => %s\n| some %s =>\n%s" % (a, ctx["ret"]("none"), v, indent(k(v, t[1])))
+            return self.ev(e[1], env, ctx, after_try)
         if kind == "closure":
             raise Unsupported("closure outside a supported iterator adaptor")
         if kind == "range":
@@ -1003,6 +1058,8 @@ class FnTr:
             n = segs[0]
             if n in env:
                 return k(lname(n), env[n])
+            if n == "None":
+                return k("none", expect if expect and expect[0] == "opt" else ("opt", U))
             if ("?" + n) in env:
                 raise Unsupported("variable %s read before its first assignment is visible" % n)
             # module-level constant of the current module
@@ -1061,13 +1118,17 @@ class FnTr:
             raise Unsupported("arithmetic on %s" % (t,))
         if t[1] in SIGNED:
             raise Unsupported("signed arithmetic")
-        if op == ">>":
-            return "(%s >>> %s)" % (a, b)
-        if op == "<<":
-            w = INT_W.get(t[1], 32 if t[1] == "lit" else None)
-            return "((%s <<< %s) %% %d)" % (a, b, 2 ** w)
-        if op in ("+", "*"):
-            return "(%s %s %s)" % (a, op, b)
+        w = INT_W.get(t[1], 31)   # an unsuffixed literal of undetermined type: the narrowest candidate (non-negative i32)
+        if op in (">>", "<<"):
+            wl = INT_W.get(ta[1], 31) if ta[0] == "int" else w
+            amt = self.const_amount(b)
+            if amt is not None and amt < wl:
+                return "(%s >>> %s)" % (a, b) if op == ">>" else "((%s <<< %s) %% %d)" % (a, b, 2 ** wl)
+            return ("Src.%s %d %s %s" % ("shr" if op == ">>" else "shl", wl, a, b),)
+        if op == "+":
+            return ("Src.add %d %s %s" % (w, a, b),)
+        if op == "*":
+            return ("Src.mul %d %s %s" % (w, a, b),)
         if op == "-":
             return ("Src.sub %s %s" % (a, b),)
         if op == "/":
@@ -1075,6 +1136,17 @@ class FnTr:
         if op == "%":
             return ("Src.rem %s %s" % (a, b),)
         raise Unsupported("operator " + op)
+
+    def const_amount(self, atom):
+        """value of a shift amount that is a literal or a named constant; None otherwise"""
+        if re.match(r"^[0-9]+$", atom):
+            return int(atom)
+        m = re.match(r"^Src\.([A-Za-z0-9_]+)\.([A-Za-z0-9_]+)$", atom)
+        if m:
+            for key, (val, ty) in self.tr.const_done.items():
+                if key[0].replace("trait:", "") == m.group(1) and key[1] == m.group(2) and isinstance(val, int):
+                    return val
+        return None
 
     def bin(self, e, env, ctx, k, expect):
         _, op, l, r = e
@@ -1096,7 +1168,7 @@ class FnTr:
             def after_l(a, t):
                 def after_r(b, t2):
                     tt = t if t != I("lit") else t2
-                    if tt[0] not in ("int", "bool", "enum", "arr", "adt", "tup", "ordering", "opt"):
+                    if tt[0] not in ("int", "bool", "enum", "arr", "adt", "tup", "ordering", "opt", "char", "res"):
                         raise Unsupported("comparison of %s" % (tt,))
                     if tt[0] in ("arr", "adt", "tup", "opt") and op not in ("==", "!="):
                         raise Unsupported("ordering comparison of %s" % (tt,))
@@ -1111,7 +1183,12 @@ class FnTr:
 
         def after_l(a, t):
             def after_r(b, t2):
-                res = self.binop(op, a, t, b, t2)
+                t_l = t
+                if t == I("lit") and op in ("<<", ">>") and expect is not None and expect[0] == "int":
+                    t_l = expect
+                if t == I("lit") and t2 == I("lit") and expect is not None and expect[0] == "int":
+                    t_l = expect
+                res = self.binop(op, a, t_l, b, t2)
                 rt = t if t != I("lit") else t2
                 if op in ("<<", ">>"):
                     rt = t if t != I("lit") else (expect if expect and expect[0] == "int" else I("lit"))
@@ -1254,10 +1331,24 @@ class FnTr:
             # tuple-struct constructor or free function of the current module
             if name in self.c.structs or name == "Self":
                 return self.ctor(name, args, env, ctx, k)
-            if name in ("Some", "Ok"):
-                raise Unsupported("Option / Result value")
-            own = self.rec["owner"]
-            return self.call_fn(own, name, None, args, env, ctx, k)
+            if name == "Some" and len(args) == 1:
+                ex = expect[1] if expect and expect[0] == "opt" else None
+                return self.ev(args[0], env, ctx, lambda a, t: k("(some %s)" % a, ("opt", t)), expect=ex)
+            if name == "Ok" and len(args) == 1:
+                ex = expect[1] if expect and expect[0] == "res" else None
+                return self.ev(args[0], env, ctx, lambda a, t: k("(Except.ok %s)" % a, ("res", t)), expect=ex)
+            if name == "Err" and len(args) == 1:
+                rt = expect if expect and expect[0] == "res" else (self.rty if self.rty[0] == "res" else None)
+                if rt is None:
+                    raise Unsupported("Err of unknown result type")
+                return self.ev(args[0], env, ctx, lambda a, t: k("(Except.error %s)" % a, rt))
+            cands = [self.rec.get("mod"), self.rec["owner"]]
+            cands += sorted(o for (o, n) in self.c.fns if n == name and o not in self.c.structs and o not in self.c.enums
+                            and o not in INT_W and not o.startswith("trait:"))
+            for own in cands:
+                if own and (own, name) in self.c.fns and self.c.fns[(own, name)][0]["fn"][2] is None:
+                    return self.call_fn(own, name, None, args, env, ctx, k)
+            raise Unsupported("unknown function " + name)
         own = self.tr.path_owner(segs[:-1], self.owner)
         seg_names = [s if isinstance(s, str) else s[0] for s in segs]
         if own in self.c.structs and name == own:
@@ -1309,6 +1400,7 @@ class FnTr:
 
             def after_it(xs, xt):
                 env2 = dict(env)
+                env2["#depth"] = env2.get("#depth", 0) + 1
                 p = clo[1][0]
                 lp = self.bindpat(p, xt[1], env2)
                 cctx = {"ret": None, "brk": None, "cont": None}
@@ -1323,6 +1415,18 @@ class FnTr:
             pass
 
         def after_r(a, t):
+            if t[0] == "str":
+                if name == "split_whitespace" and not args:
+                    return k2("(CK.tokens %s)" % a, ("iter", ("str",)))
+                if name == "chars" and not args:
+                    return k2(a, ("iter", ("char",)))
+                if name == "len" and not args:
+                    raise Unsupported("str::len (UTF-8 byte length)")
+            if t[0] == "iter" and len(t) > 1 and name == "next" and not args:
+                if rv is None:
+                    raise Unsupported("next() on a temporary iterator")
+                tmp = self.fresh()
+                return "let (%s, %s) := Src.iterNext %s\n%s" % (tmp, lname(rv), lname(rv), k2(tmp, ("opt", t[1])))
             # built-in methods on integers
             if t[0] == "int":
                 w = INT_W.get(t[1])
@@ -1370,11 +1474,17 @@ class FnTr:
         _, scrut, arms = e
 
         def after(a, t):
+            if t[0] == "opt":
+                return self.match_opt(arms, a, t, env, ctx, k, expect, stmt_cont)
+            if t[0] == "char":
+                t = I("u32")
             if t[0] not in ("int", "enum", "bool"):
                 raise Unsupported("match on %s" % (t,))
-            if len(arms) > 80:
+            if len(arms) > 80 and self.match_ranges(arms, a, t, env, ctx, expect) is None and self.match_table(arms, a, t, env, ctx, expect) is None:
                 raise Unsupported("match with %d arms (regenerated as a complete function graph instead)" % len(arms))
             tbl = self.match_table(arms, a, t, env, ctx, expect)
+            if tbl is None:
+                tbl = self.match_ranges(arms, a, t, env, ctx, expect)
             if tbl is not None and not stmt_cont:
                 return k(tbl[0], tbl[1])
             lines = []
@@ -1417,6 +1527,33 @@ class FnTr:
             return term
         return self.ev(scrut, env, ctx, after)
 
+    def match_opt(self, arms, a, t, env, ctx, k, expect, stmt_cont):
+        none_arm = some_arm = None
+        for pat, guard, body in arms:
+            if guard is not None:
+                raise Unsupported("match guard")
+            if pat[0] == "ppath" and pat[1][-1] == "None" and none_arm is None:
+                none_arm = (None, body)
+            elif pat[0] == "pctor" and pat[1][-1] == "Some" and len(pat[2]) == 1 and some_arm is None:
+                some_arm = (pat[2][0], body)
+            elif pat[0] in ("pwild", "pbind"):
+                none_arm = none_arm or (None, body)
+                some_arm = some_arm or (("pwild",), body)
+            else:
+                raise Unsupported("pattern on an Option")
+        if none_arm is None or some_arm is None:
+            raise Unsupported("match on an Option without both cases")
+
+        def arm(body, env2):
+            if body[0] == "block":
+                return self.block(body, env2, ctx, (lambda a2, t2, env3: stmt_cont(self.merge_env(env, env3))) if stmt_cont else (lambda a2, t2, env3: k(a2, fix(t2, expect))))
+            if stmt_cont:
+                return self.stmt_expr(body, env2, ctx, stmt_cont)
+            return self.ev(body, env2, ctx, lambda a2, t2: k(a2, fix(t2, expect)), expect=expect)
+        env_s = dict(env)
+        lp = self.bindpat(some_arm[0], t[1], env_s)
+        return "match %s with\n| none =>\n%s\n| some %s =>\n%s" % (a, indent(arm(none_arm[1], dict(env))), lp, indent(arm(some_arm[1], env_s)))
+
     def match_table(self, arms, a, t, env, ctx, expect):
         """`match x { C1 => V1, C2 | C3 => V2, ..., _ => D }` with constant patterns and pure numeric results
         -> (`Src.matchTable [(C1, V1), ...] D x`, type); None if the match is not of that shape"""
@@ -1433,7 +1570,7 @@ class FnTr:
             except (Unsupported, TypeError):
                 self.n = n0
                 return None
-            if not probe.startswith("\0") or got[0][0] not in ("int", "enum"):
+            if not probe.startswith("\0") or got[0][0] not in ("int", "enum", "char"):
                 self.n = n0
                 return None
             val = probe[1:]
@@ -1446,7 +1583,7 @@ class FnTr:
                 dflt = val
                 break
             for p in alts:
-                if p[0] not in ("plit", "ppath") or (p[0] == "plit" and p[1][0] != "num"):
+                if p[0] not in ("plit", "ppath") or (p[0] == "plit" and p[1][0] not in ("num", "char")):
                     return None
                 c, b = self.patcond(p, "S", t)
                 m = re.match(r"^\(S == (.*)\)$", c)
@@ -1457,6 +1594,47 @@ class FnTr:
             # exhaustive over an enum: the last arm's value serves as the default
             dflt = rows[-1].rsplit(", ", 1)[1][:-1]
         return "(Src.matchTable [%s] %s %s)" % (", ".join(rows), dflt, a), fix(rt, expect)
+
+    def match_ranges(self, arms, a, t, env, ctx, expect):
+        """`match x { lo..=hi => V, n => W, ..., _ => D }` with constant results -> `Src.matchRanges [(lo, hi, V) …] D x`"""
+        if len(arms) < 6 or t[0] != "int":
+            return None
+        rows, dflt, rt = [], None, None
+        for i, (pat, guard, body) in enumerate(arms):
+            if guard is not None or body[0] in ("block", "return", "if", "match"):
+                return None
+            n0 = self.n
+            try:
+                got = []
+                probe = self.ev(body, env, {"ret": None, "brk": None, "cont": None}, lambda b, tt: got.append(tt) or ("\0" + b), expect=expect)
+            except (Unsupported, TypeError):
+                self.n = n0
+                return None
+            if not probe.startswith("\0") or got[0][0] not in ("int", "enum", "char"):
+                self.n = n0
+                return None
+            val = probe[1:]
+            if rt is None or rt == I("lit"):
+                rt = got[0]
+            if pat[0] == "pwild":
+                if i != len(arms) - 1:
+                    return None
+                dflt = val
+                break
+            for p in (pat[1] if pat[0] == "por" else [pat]):
+                try:
+                    if p[0] == "plit" and p[1][0] == "num" and not p[1][3]:
+                        lo = hi = str(parse_int(p[1][1]))
+                    elif p[0] == "prange":
+                        lo, hi = self.patval(p[1]), self.patval(p[2])
+                    else:
+                        return None
+                except Unsupported:
+                    return None
+                rows.append("(%s, %s, %s)" % (lo, hi, val))
+        if dflt is None:
+            return None
+        return "(Src.matchRanges [%s] %s %s)" % (", ".join(rows), dflt, a), fix(rt, expect)
 
     def patcond(self, pat, s, t):
         """(Lean Bool condition or None for irrefutable, bound variable name or None)"""
@@ -1473,6 +1651,8 @@ class FnTr:
                 return "(%s == %d)" % (s, parse_int(lit[1])), None
             if lit[0] == "bool":
                 return ("%s" % s if lit[1] else "(!%s)" % s), None
+            if lit[0] == "char":
+                return "(%s == %d)" % (s, char_code(lit[1])), None
             raise Unsupported("literal pattern")
         if kd == "prange":
             lo, hi = pat[1], pat[2]
@@ -1485,7 +1665,7 @@ class FnTr:
             got = []
             self.path(fake, {}, lambda a, tt: got.append(a) or "", None)
             return "(%s == %s)" % (s, got[0]), None
-        if kd == "por" and len(pat[1]) >= 4 and all(p[0] in ("plit", "ppath") and not (p[0] == "plit" and p[1][0] != "num") for p in pat[1]):
+        if kd == "por" and len(pat[1]) >= 4 and all(p[0] in ("plit", "ppath") and not (p[0] == "plit" and p[1][0] not in ("num", "char")) for p in pat[1]):
             vals = []
             for p in pat[1]:
                 c, b = self.patcond(p, s, t)
@@ -1529,6 +1709,7 @@ def indent(s, n=2):
 PRELUDE = '''import CkcVerif.Model.Basic
 import CkcVerif.Model.Bits
 import CkcVerif.Model.Sort
+import CkcVerif.Model.Parse
 /-!
 # Mechanical translation of the crate's algorithmic functions (written by tools/rs2lean.py on every run — do not edit)
 
@@ -1580,9 +1761,24 @@ def allM {α : Type} : List α → (α → Option Bool) → Option Bool
     | some false => some false
     | some true => allM xs f
 
+/-- `match x { lo..=hi => V, …, _ => D }` with constant bounds and results: first matching row -/
+def matchRanges : List (Nat × Nat × Nat) → Nat → Nat → Nat
+  | [], d, _ => d
+  | (lo, hi, v) :: rest, d, x => if lo ≤ x ∧ x ≤ hi then v else matchRanges rest d x
+
+/-- `Iterator::next` on a list-backed iterator -/
+def iterNext {α : Type} : List α → Option α × List α
+  | [] => (none, [])
+  | x :: xs => (some x, xs)
+
 /-- `match x { C₁ => V₁, …, _ => D }` with constant patterns and constant results: first matching row -/
 def matchTable (tbl : List (Nat × Nat)) (dflt : Nat) (x : Nat) : Nat := (tbl.lookup x).getD dflt
 
+/-- `+`, `*`, `<<`, `>>` on a `w`-bit unsigned integer: `none` = "attempt to … with overflow" (overflow checks on) -/
+def add (w a b : Nat) : Option Nat := if a + b < 2 ^ w then some (a + b) else none
+def mul (w a b : Nat) : Option Nat := if a * b < 2 ^ w then some (a * b) else none
+def shl (w a b : Nat) : Option Nat := if b < w then some ((a <<< b) % 2 ^ w) else none
+def shr (w a b : Nat) : Option Nat := if b < w then some (a >>> b) else none
 /-- unsigned subtraction: panics below zero (overflow checks on); the release build would wrap -/
 def sub (a b : Nat) : Option Nat := if b ≤ a then some (a - b) else none
 def div (a b : Nat) : Option Nat := if b = 0 then none else some (a / b)
@@ -1633,6 +1829,9 @@ def main():
         if owner.startswith("trait:"):
             continue
         targets.append((owner, name))
+        for i in range(2, len(recs) + 1):
+            # several impls define the same name for this type (e.g. `TryFrom<&str>` and `TryFrom<BinaryCard>`)
+            targets.append((owner, "%s__%d" % (name, i)))
     # trait default methods, once per implementing type
     for tname, fns in sorted(crate.traits.items()):
         for owner in crate.trait_impls.get(tname, []):
